@@ -10,6 +10,7 @@ import (
 	"fmt"
 	"io"
 	"sync"
+	"sync/atomic"
 	"time"
 
 	"github.com/multiformats/go-multiaddr"
@@ -61,12 +62,17 @@ type Epoch struct {
 	blocktimeindex              *blocktimeindex.Index
 	onClose                     []func() error
 	allCache                    *hugecache.Cache
+	// cacheOwner tells the look-ups this object caches apart from those of every other loaded Epoch
+	// object, an earlier or later version of the same epoch included.
+	cacheOwner uint64
 	// carMu makes Close wait for the reads of the local CAR file that are in flight (see closeSafeReaderAt).
 	carMu  sync.RWMutex
 	closed bool
 }
 
 var errEpochClosed = errors.New("the epoch has been closed")
+
+var lastCacheOwner uint64
 
 func (r *Epoch) GetCache() *hugecache.Cache {
 	return r.allCache
@@ -134,6 +140,7 @@ func NewEpochFromConfig(
 	isCarMode := !isLassieMode
 
 	ep := &Epoch{
+		cacheOwner:     atomic.AddUint64(&lastCacheOwner, 1),
 		epoch:          *config.Epoch,
 		isFilecoinMode: isLassieMode,
 		config:         config,
@@ -849,7 +856,7 @@ func (ser *Epoch) FindCidFromSlot(ctx context.Context, slot uint64) (o cid.Cid, 
 	}()
 
 	// try from cache
-	if c, err, has := ser.GetCache().GetSlotToCid(slot); err != nil {
+	if c, err, has := ser.GetCache().GetSlotToCid(ser.cacheOwner, slot); err != nil {
 		return cid.Undef, err
 	} else if has {
 		return c, nil
@@ -858,7 +865,7 @@ func (ser *Epoch) FindCidFromSlot(ctx context.Context, slot uint64) (o cid.Cid, 
 	if err != nil {
 		return cid.Undef, err
 	}
-	ser.GetCache().PutSlotToCid(slot, found)
+	ser.GetCache().PutSlotToCid(ser.cacheOwner, slot, found)
 	return found, nil
 }
 
@@ -881,7 +888,7 @@ func (ser *Epoch) FindOffsetAndSizeFromCid(ctx context.Context, cid cid.Cid) (os
 	}()
 
 	// try from cache
-	if osi, err, has := ser.GetCache().GetCidToOffsetAndSize(ser.Epoch(), cid); err != nil {
+	if osi, err, has := ser.GetCache().GetCidToOffsetAndSize(ser.cacheOwner, cid); err != nil {
 		return nil, err
 	} else if has {
 		return osi, nil
@@ -906,7 +913,7 @@ func (ser *Epoch) FindOffsetAndSizeFromCid(ctx context.Context, cid cid.Cid) (os
 			Offset: offset,
 			Size:   size,
 		}
-		ser.GetCache().PutCidToOffsetAndSize(ser.Epoch(), cid, found)
+		ser.GetCache().PutCidToOffsetAndSize(ser.cacheOwner, cid, found)
 		return found, nil
 	}
 
@@ -914,7 +921,7 @@ func (ser *Epoch) FindOffsetAndSizeFromCid(ctx context.Context, cid cid.Cid) (os
 	if err != nil {
 		return nil, err
 	}
-	ser.GetCache().PutCidToOffsetAndSize(ser.Epoch(), cid, found)
+	ser.GetCache().PutCidToOffsetAndSize(ser.cacheOwner, cid, found)
 	return found, nil
 }
 
